@@ -101,10 +101,14 @@ func tolerated(pkg *packages.Package, e packages.Error) bool {
 	return false
 }
 
+// loadOverlay: source replacements applied in memory (sensitivity variants of
+// the thorough tier); nil for the real checks.
+var loadOverlay map[string][]byte
+
 func load(repo, tier string, extraEnv ...string) (*Ctx, error) {
 	env := append(os.Environ(), "GOFLAGS=-mod=mod", "GOPROXY=off", "GOSUMDB=off", "GOWORK=off", "GOTOOLCHAIN=local")
 	env = append(env, extraEnv...)
-	cfg := &packages.Config{Mode: packages.LoadAllSyntax | packages.NeedModule, Dir: repo, Env: env, Tests: false}
+	cfg := &packages.Config{Mode: packages.LoadAllSyntax | packages.NeedModule, Dir: repo, Env: env, Tests: false, Overlay: loadOverlay}
 	pkgs, err := packages.Load(cfg, "./...")
 	if err != nil {
 		return nil, fmt.Errorf("packages.Load: %v", err)
